@@ -4,13 +4,16 @@ import (
 	"fmt"
 	"strings"
 
+	validate "buf.build/gen/go/bufbuild/protovalidate/protocolbuffers/go/buf/validate"
 	"buf.build/go/protovalidate"
+	"google.golang.org/protobuf/reflect/protoreflect"
 	"google.golang.org/protobuf/types/dynamicpb"
 
 	"verif/internal/lab"
 	"verif/internal/oas"
 	"verif/internal/plugin"
 	"verif/internal/spec"
+	"verif/internal/values"
 )
 
 // c06rules: bodies of messages whose fields carry buf.validate rules. The document publishes the
@@ -31,6 +34,7 @@ func c06rules(c *Ctx, add func(wireSample), docs map[string]any) {
 	}
 	pkg := "c06.rules"
 	u := buildRuleUnitX(pkg, "c06rules", "RuleBodyService", cat, true)
+	structural := addStructuralRuleCases(u.f, pkg)
 	l, err := lab.New(c.TB, "c06r")
 	if err != nil {
 		c.R.Harness(err.Error())
@@ -155,5 +159,141 @@ func c06rules(c *Ctx, add func(wireSample), docs map[string]any) {
 			}
 		}
 	}
+	// rules on fields that sit inside a JSON-mapping construct (flattened child, oneof variant, list and map
+	// elements, optional scalar): the construct present and absent
+	for _, sc := range structural {
+		md := msgDesc(reg, pkg+"."+sc.msg)
+		op, ok := ops[sc.rpc]
+		if md == nil || !ok {
+			c.R.Violate("oasjson/rules-in/"+sc.id, "operation-missing", "", nil)
+			continue
+		}
+		for _, val := range sc.values(md) {
+			if err := v.Validate(val.M); err != nil {
+				c.R.Harness("c06rules structural value rejected by the rule model: " + sc.id + "@" + val.Class + ": " + firstLines(err.Error(), 2))
+				continue
+			}
+			gs.Script(svc+"."+sc.rpc, map[string]any{"resp": b64(wire(val.M))})
+			out, err := callGo(ch, svc, gs.URL, sc.rpc, pkg+"."+sc.msg, wire(val.M), map[string]any{"ct": "application/json"})
+			c.R.Eval(1)
+			calls++
+			if err != nil {
+				c.R.Inconclusive("oasjson/rules-in/"+sc.id, "lab-child:"+err.Error())
+				return
+			}
+			for _, e := range out.byKind("wire") {
+				if e.Int("status") != 200 {
+					c.R.Inconclusive(fmt.Sprintf("oasjson/rules-in/%s@%s", sc.id, val.Class), fmt.Sprintf("server answered %d to a body the rule model accepts", e.Int("status")))
+					continue
+				}
+				c06collect(add, e, op, pkg, "oasjson/rules-in/"+sc.id, val.Class, "message "+sc.msg+" of "+pkg, md)
+			}
+		}
+	}
 	c.R.Count("rule_body_calls", calls)
+}
+
+type structuralRuleCase struct {
+	id, msg, rpc string
+	values       func(md protoreflect.MessageDescriptor) []values.LMsg
+}
+
+// addStructuralRuleCases declares messages whose rule-carrying fields sit inside JSON-mapping constructs
+// and one POST RPC per message. Child field names are single words and strings, so the recorded codec
+// defects of flatten/oneof children (snake_case keys, numbers for 64-bit) stay out of the picture.
+func addStructuralRuleCases(f *spec.File, pkg string) []structuralRuleCase {
+	req := true
+	strRule := func(minLen uint64, required bool) *validate.FieldRules {
+		r := &validate.FieldRules{Type: &validate.FieldRules_String_{String_: &validate.StringRules{MinLen: &minLen}}}
+		if required {
+			r.Required = &req
+		}
+		return r
+	}
+	in := func(m string) string { return "." + pkg + "." + m }
+	addr := &spec.Message{Name: "SAddr", Fields: []*spec.Field{spec.F("street", 1, spec.String).With(func(a *spec.Ann) { a.Rules = strRule(2, true) }), spec.F("city", 2, spec.String)}}
+	varA := &spec.Message{Name: "SVarA", Fields: []*spec.Field{spec.F("text", 1, spec.String).With(func(a *spec.Ann) { a.Rules = strRule(2, true) })}}
+	varB := &spec.Message{Name: "SVarB", Fields: []*spec.Field{spec.F("label", 1, spec.String).With(func(a *spec.Ann) { a.Rules = strRule(1, true) }), spec.F("extra", 2, spec.String)}}
+	f.Messages = append(f.Messages, addr, varA, varB)
+	var out []structuralRuleCase
+	n := 0
+	add := func(id string, m *spec.Message, vals func(md protoreflect.MessageDescriptor) []values.LMsg) {
+		n++
+		m.Name = fmt.Sprintf("S%02d", n)
+		rpc := fmt.Sprintf("Struct%02d", n)
+		f.Messages = append(f.Messages, m)
+		f.Services[0].Methods = append(f.Services[0].Methods, &spec.Method{Name: rpc, In: in(m.Name), Out: in(m.Name), HTTP: &spec.HTTP{Path: fmt.Sprintf("/struct/%02d", n), Verb: 2}})
+		out = append(out, structuralRuleCase{id: id, msg: m.Name, rpc: rpc, values: vals})
+	}
+	setStr := func(m protoreflect.Message, name, val string) {
+		m.Set(m.Descriptor().Fields().ByName(protoreflect.Name(name)), protoreflect.ValueOfString(val))
+	}
+	// absent / present values of a message with one singular message field `child`
+	childVals := func(field string, fill func(child protoreflect.Message)) func(md protoreflect.MessageDescriptor) []values.LMsg {
+		return func(md protoreflect.MessageDescriptor) []values.LMsg {
+			absent := dynamicpb.NewMessage(md)
+			setStr(absent, "id", "only-id")
+			present := dynamicpb.NewMessage(md)
+			setStr(present, "id", "with-child")
+			fd := md.Fields().ByName(protoreflect.Name(field))
+			switch {
+			case fd.IsList():
+				for i := 0; i < 2; i++ {
+					e := present.Mutable(fd).List().NewElement()
+					fill(e.Message())
+					present.Mutable(fd).List().Append(e)
+				}
+			case fd.IsMap():
+				e := present.Mutable(fd).Map().NewValue()
+				fill(e.Message())
+				present.Mutable(fd).Map().Set(protoreflect.ValueOfString("k1").MapKey(), e)
+			default:
+				fill(present.Mutable(fd).Message())
+			}
+			return []values.LMsg{{Class: "construct-absent", M: absent}, {Class: "default", M: dynamicpb.NewMessage(md)}, {Class: "construct-present", M: present}}
+		}
+	}
+	fillAddr := func(m protoreflect.Message) { setStr(m, "street", "Main St"); setStr(m, "city", "Ulm") }
+	idf := func() *spec.Field { return spec.F("id", 1, spec.String) }
+	add("flatten-child+prefix/required", &spec.Message{Fields: []*spec.Field{idf(), spec.FM("child", 2, in("SAddr")).With(func(a *spec.Ann) { a.Flatten = spec.B(true); a.FlattenPrefix = spec.S("ship_") }), spec.F("note", 3, spec.String)}}, childVals("child", fillAddr))
+	add("flatten-child/required", &spec.Message{Fields: []*spec.Field{idf(), spec.FM("child", 2, in("SAddr")).With(func(a *spec.Ann) { a.Flatten = spec.B(true) }), spec.F("note", 3, spec.String)}}, childVals("child", fillAddr))
+	add("message-field/required", &spec.Message{Fields: []*spec.Field{idf(), spec.FM("child", 2, in("SAddr"))}}, childVals("child", fillAddr))
+	add("optional-message-field/required", &spec.Message{Fields: []*spec.Field{idf(), spec.FM("child", 2, in("SAddr")).Opt()}}, childVals("child", fillAddr))
+	add("repeated-message/required", &spec.Message{Fields: []*spec.Field{idf(), spec.FM("child", 2, in("SAddr")).Rep()}}, childVals("child", fillAddr))
+	add("map-message/required", &spec.Message{Fields: []*spec.Field{idf(), spec.FM("child", 2, in("SAddr")).MapOf(spec.String)}}, childVals("child", fillAddr))
+	for _, flat := range []bool{true, false} {
+		label := map[bool]string{true: "oneof-flatten-variant/required", false: "oneof-nested-variant/required"}[flat]
+		add(label, &spec.Message{Oneofs: []*spec.Oneof{{Name: "kind", HasConfig: true, Discriminator: "type", Flatten: flat}},
+			Fields: []*spec.Field{idf(), spec.FM("a", 2, in("SVarA")).In(1), spec.FM("b", 3, in("SVarB")).In(1)}},
+			func(md protoreflect.MessageDescriptor) []values.LMsg {
+				none := dynamicpb.NewMessage(md)
+				setStr(none, "id", "no-variant")
+				a := dynamicpb.NewMessage(md)
+				setStr(a, "id", "variant-a")
+				setStr(a.Mutable(md.Fields().ByName("a")).Message(), "text", "hello")
+				b := dynamicpb.NewMessage(md)
+				setStr(b, "id", "variant-b")
+				setStr(b.Mutable(md.Fields().ByName("b")).Message(), "label", "L")
+				return []values.LMsg{{Class: "no-variant", M: none}, {Class: "default", M: dynamicpb.NewMessage(md)}, {Class: "variant-a", M: a}, {Class: "variant-b", M: b}}
+			})
+	}
+	add("optional-scalar/min_len", &spec.Message{Fields: []*spec.Field{idf(), spec.F("nick", 2, spec.String).Opt().With(func(a *spec.Ann) { a.Rules = strRule(3, false) })}},
+		func(md protoreflect.MessageDescriptor) []values.LMsg {
+			unset := dynamicpb.NewMessage(md)
+			setStr(unset, "id", "no-nick")
+			set := dynamicpb.NewMessage(md)
+			setStr(set, "id", "nick")
+			setStr(set, "nick", "abcd")
+			return []values.LMsg{{Class: "unset", M: unset}, {Class: "set", M: set}}
+		})
+	add("nullable-scalar/min_len", &spec.Message{Fields: []*spec.Field{idf(), spec.F("nick", 2, spec.String).Opt().With(func(a *spec.Ann) { a.Rules = strRule(3, false); a.Nullable = spec.B(true) })}},
+		func(md protoreflect.MessageDescriptor) []values.LMsg {
+			unset := dynamicpb.NewMessage(md)
+			setStr(unset, "id", "no-nick")
+			set := dynamicpb.NewMessage(md)
+			setStr(set, "id", "nick")
+			setStr(set, "nick", "abcd")
+			return []values.LMsg{{Class: "unset", M: unset}, {Class: "set", M: set}}
+		})
+	return out
 }
